@@ -191,6 +191,9 @@ class LayerRule(
                 "Layer rule subjects cannot be specified in batch."
             )
 
+        if self._rule.rule_subjects and self._rule._configuration.import_ is None:
+            raise ImproperlyConfigured("Layer rule subject already specified.")
+
         layers = self._listify(layers)
         modules = self._get_all_modules_in_layers(layers)
 
